@@ -19,6 +19,12 @@ compared with the by-definition evaluator of refmodel/graph.py.
   named     a fixed list of structured larger graphs (cliques, wheels,
             multipartite, paths, stars, cycles, unions, hypercubes, grids,
             a hub of degree 217 with a K5 among its neighbours, K183)
+  scale     a fixed list of larger structured graphs just above the size
+            thresholds of the implementation (components of 9 / 11-12 / 15 /
+            23 nodes, interleaved labels, isolated nodes; bipartite graphs
+            with N >= 21; N = 150 / 209 / 300; link attributes on N = 182 /
+            200 / 260 / 300), always with unequal node weights; the n.s.i.
+            measures are held to their node-weighted definitions
   extra     only with VERIF_SEED != 0: seeded G(n,p), n in 6..40 (reported as
             `extra`, never as exhaustive coverage)
   selftest  the evaluator against networkx on all graphs <= 4 nodes; a
